@@ -197,6 +197,33 @@ class Check:
             violations += 1
             print(f"VIOLATION property={self.pid} replay={path}")
             print(f"   {c['oracle']} {json.dumps(c['v'], default=repr, ensure_ascii=True)[:400]} input={c['args'][:2]!r}"[:700])
+        # every open finding's recorded witness is re-executed on the current tree (still failing -> KNOWN-FINDING line)
+        for entry in self.known:
+            if entry.get("property") != self.pid or entry.get("status") != "open" or entry["id"] in known_hit:
+                continue
+            orc = entry.get("match", {}).get("oracle")
+            args = entry.get("witness_args") or ([entry["witness"]] if "witness" in entry else None)
+            if not orc or args is None:
+                continue
+            try:
+                from . import oracles as _o
+                table = dict(_o.ORACLES)
+                try:
+                    from . import oracles2 as _o2
+                    table.update(_o2.ORACLES)
+                except ImportError:
+                    pass
+                from .load import repo as _repo
+                v = table[orc](_repo().real, *args, **entry.get("witness_kwargs", {}))
+            except Exception as e:  # noqa: BLE001
+                self.engine_errors.append({"known-finding-witness": entry["id"], "error": repr(e)[:200]})
+                continue
+            if v is not None:
+                c = {"oracle": orc, "args": list(args), "kwargs": entry.get("witness_kwargs", {}), "v": v}
+                if finding_matches(entry, self.pid, c):
+                    known_hit[entry["id"]] = (entry, c, None)
+                else:
+                    self.engine_errors.append({"known-finding-witness": entry["id"], "error": "witness fails differently than recorded", "v": v})
         for fid, (entry, c, path) in known_hit.items():
             print(f"KNOWN-FINDING: property={self.pid} {fid}: {entry.get('what', '')} (e.g. {c['args'][0]!r})"[:400])
         if not_reproduced:
